@@ -23,10 +23,11 @@ class Raised(Exception):
 
 class Stopped(Exception):
     """evaluation reached a call the caller asked to stop at"""
-    def __init__(self, fn, args):
+    def __init__(self, fn, args, kwargs=None):
         Exception.__init__(self, fn)
         self.fn = fn
         self.args_ = args
+        self.kwargs_ = dict(kwargs or {})
 
 
 class _Return(Exception):
@@ -48,15 +49,23 @@ PURE_BUILTINS = {"len": len, "str": str, "int": int, "list": list, "dict": dict,
 PURE_METHODS = {
     str: {"split", "rsplit", "startswith", "endswith", "join", "strip", "lstrip", "rstrip", "lower", "upper", "replace", "format", "find", "index", "count",
           "partition", "rpartition", "isdigit", "isalpha", "isalnum", "encode", "title", "splitlines", "zfill"},
-    bytes: {"split", "startswith", "endswith", "join", "strip", "lstrip", "rstrip", "replace", "find", "decode", "hex"},
+    bytes: {"split", "rsplit", "startswith", "endswith", "join", "strip", "lstrip", "rstrip", "replace", "find", "decode", "hex", "count", "partition", "rpartition", "index"},
     list: {"append", "extend", "insert", "pop", "index", "count", "copy", "reverse", "sort", "remove", "clear"},
     dict: {"get", "keys", "values", "items", "copy", "update", "pop", "setdefault"},
     tuple: {"index", "count"},
     set: {"add", "discard", "union", "copy"},
 }
 import struct as _struct
-PURE_FUNCS = {"re.escape": _re.escape, "struct.unpack": _struct.unpack, "struct.pack": _struct.pack, "struct.calcsize": _struct.calcsize,
-              "int.from_bytes": int.from_bytes}
+import base64 as _b64
+import binascii as _binascii
+PURE_FUNCS = {"re.escape": _re.escape, "struct.unpack": _struct.unpack, "struct.unpack_from": _struct.unpack_from, "struct.pack": _struct.pack, "struct.calcsize": _struct.calcsize,
+              "int.from_bytes": int.from_bytes, "base64.b64encode": _b64.b64encode, "base64.b64decode": _b64.b64decode,
+              "base64.urlsafe_b64encode": _b64.urlsafe_b64encode, "base64.urlsafe_b64decode": _b64.urlsafe_b64decode}
+# library exception -> (name the program could catch it by, names of its bases the program could catch it by)
+EXC_BASES = {"struct.error": ("Exception",), "binascii.Error": ("ValueError", "Exception"), "UnicodeEncodeError": ("UnicodeError", "ValueError", "Exception"),
+             "UnicodeDecodeError": ("UnicodeError", "ValueError", "Exception"), "ValueError": ("Exception",), "TypeError": ("Exception",), "KeyError": ("LookupError", "Exception"),
+             "IndexError": ("LookupError", "Exception"), "AttributeError": ("Exception",), "ZeroDivisionError": ("ArithmeticError", "Exception"),
+             "RuntimeError": ("Exception",), "NotImplementedError": ("RuntimeError", "Exception"), "Exception": ()}
 EXC_NAMES = {"ValueError", "TypeError", "KeyError", "IndexError", "Exception", "RuntimeError", "NotImplementedError", "AttributeError"}
 
 
@@ -173,13 +182,52 @@ class MiniEval(object):
             raise _Return(self.ev(st.value, env) if st.value is not None else None)
         if isinstance(st, ast.Raise):
             if st.exc is None:
-                raise Undecided("minieval: bare raise")
+                cur = env.get("<handling>")
+                if cur is None:
+                    raise Undecided("minieval: bare raise")
+                raise Raised(cur[1], cur[2])
             e = st.exc
-            if isinstance(e, ast.Call) and isinstance(e.func, ast.Name):
+            if isinstance(e, ast.Call) and isinstance(e.func, ast.Name) and e.func.id not in env:
                 raise Raised(e.func.id, tuple(self.ev(a, env) for a in e.args))
+            if isinstance(e, ast.Name) and e.id in env:
+                v = env[e.id]
+                if isinstance(v, tuple) and len(v) == 3 and v[0] == "<exc>":
+                    raise Raised(v[1], v[2])
+                raise Raised("TypeError", ("exceptions must derive from BaseException",))
             if isinstance(e, ast.Name):
                 raise Raised(e.id, ())
             raise Undecided("minieval: raise %s" % norm(e))
+        if isinstance(st, ast.Try):
+            try:
+                try:
+                    self.block(st.body, env)
+                except Raised as r:
+                    for h in st.handlers:
+                        names = [norm(h.type)] if h.type is not None and not isinstance(h.type, ast.Tuple) else [norm(x) for x in h.type.elts] if h.type is not None else [None]
+                        caught = any(nm is None or nm == r.typ or nm in ("BaseException",) or nm in EXC_BASES.get(r.typ, ()) for nm in names)
+                        if r.typ not in EXC_BASES and not any(nm is None or nm == r.typ for nm in names):
+                            if any(nm in ("Exception", "BaseException") for nm in names):
+                                caught = True
+                            elif caught is False:
+                                pass
+                        if caught:
+                            if h.name:
+                                env[h.name] = ("<exc>", r.typ, r.eargs)
+                            old = env.get("<handling>")
+                            env["<handling>"] = ("<exc>", r.typ, r.eargs)
+                            try:
+                                self.block(h.body, env)
+                            finally:
+                                env["<handling>"] = old
+                            break
+                    else:
+                        raise
+                else:
+                    self.block(st.orelse, env)
+            finally:
+                if st.finalbody:
+                    self.block(st.finalbody, env)
+            return
         if isinstance(st, ast.Pass):
             return
         if isinstance(st, ast.Continue):
@@ -369,12 +417,22 @@ class MiniEval(object):
 
     def call_expr(self, e, env):
         fn = norm(e.func)
+        if isinstance(e.func, ast.Name) and e.func.id == "isinstance" and len(e.args) == 2 and "isinstance" not in env:
+            kinds = {"bytes": bytes, "str": str, "int": int, "float": float, "list": list, "tuple": tuple, "dict": dict, "set": set, "bool": bool, "bytearray": bytearray}
+            t_ = e.args[1]
+            names = [x.id for x in t_.elts] if isinstance(t_, ast.Tuple) and all(isinstance(x, ast.Name) for x in t_.elts) else [t_.id] if isinstance(t_, ast.Name) else None
+            if names is None or not all(nm in kinds for nm in names):
+                raise Undecided("minieval: isinstance(%s)" % norm(t_))
+            v_ = self.ev(e.args[0], env)
+            if isinstance(v_, tuple) and v_ and v_[0] in ("<self>", "<sym>", "<exc>"):
+                return False
+            return isinstance(v_, tuple(kinds[nm] for nm in names))
         args = [self.ev(a, env) for a in e.args if not isinstance(a, ast.Starred)]
         if any(isinstance(a, ast.Starred) for a in e.args):
             raise Undecided("minieval: star arguments")
         kwargs = {k.arg: self.ev(k.value, env) for k in e.keywords if k.arg is not None}
         if fn in self.stop_at:
-            raise Stopped(fn, tuple(args))
+            raise Stopped(fn, tuple(args), kwargs)
         if fn in self.stubs:
             return self.stubs[fn](*args, **kwargs)
         if fn in self.symbolic:
@@ -382,10 +440,16 @@ class MiniEval(object):
         if fn in PURE_FUNCS:
             try:
                 return PURE_FUNCS[fn](*args, **kwargs)
-            except _struct.error:
-                raise Raised("struct.error", ())
+            except _struct.error as ex:
+                raise Raised("struct.error", (str(ex),))
+            except _binascii.Error as ex:
+                raise Raised("binascii.Error", (str(ex),))
             except (TypeError, ValueError, OverflowError) as ex:
-                raise Raised(type(ex).__name__, ())
+                raise Raised(type(ex).__name__, (str(ex),))
+        if isinstance(e.func, ast.Name) and e.func.id == "type" and len(e.args) == 1 and "type" not in env:
+            return ("<type>", type(args[0]).__name__)
+        if isinstance(e.func, ast.Name) and e.func.id == "str" and len(args) == 1 and isinstance(args[0], tuple) and args[0] and args[0][0] == "<exc>":
+            return str(args[0][2][0]) if args[0][2] else ""
         if isinstance(e.func, ast.Name) and e.func.id in PURE_BUILTINS and e.func.id not in env:
             try:
                 r = PURE_BUILTINS[e.func.id](*args, **kwargs)
@@ -396,12 +460,18 @@ class MiniEval(object):
             return ("<exc>", e.func.id, tuple(args))
         if isinstance(e.func, ast.Attribute):
             base = self.ev(e.func.value, env)
+            if isinstance(base, tuple) and base and base[0] == "<sym>" and e.func.attr in getattr(self, "method_stubs", {}):
+                return self.method_stubs[e.func.attr](base, *args, **kwargs)
+            if isinstance(base, tuple) and base and base[0] == "<sym>" and getattr(self, "symbolic_methods", False):
+                return ("<sym>", "%s.%s" % (base[1], e.func.attr), tuple(args), tuple(sorted(kwargs.items())))
             for typ, names in PURE_METHODS.items():
                 if isinstance(base, typ) and not (typ is tuple and base and base[0] in ("<self>", "<sym>", "<fn>", "<method>")) and e.func.attr in names:
                     try:
                         r = getattr(base, e.func.attr)(*args, **kwargs)
                     except KeyError as ex:
                         raise Raised("KeyError", ex.args)
+                    except (UnicodeEncodeError, UnicodeDecodeError) as ex:
+                        raise Raised(type(ex).__name__, (str(ex),))
                     except (IndexError, ValueError, TypeError) as ex:
                         raise Raised(type(ex).__name__, ())
                     if e.func.attr in ("keys", "values", "items"):
